@@ -76,11 +76,12 @@ Qed.
    plotting positions
    ===================================================================== *)
 
-Lemma ppos_cst_ok_RR cst : ppos_cst_ok RR cst = true <-> 0 <= cst <= 1/2.
+Lemma ppos_cst_ok_RR cst :
+  ppos_cst_ok RR cst = true <-> PPOS_CST_MIN_R <= cst <= PPOS_CST_MAX_R.
 Proof.
   unfold ppos_cst_ok. rewrite negb_true_iff, orb_false_iff.
-  cbn [nltb RR]. rewrite !Rltb_false, !qc_RR.
-  unfold PPOS_CST_MIN_NUM, PPOS_CST_MIN_DEN, PPOS_CST_MAX_NUM, PPOS_CST_MAX_DEN. lra.
+  cbn [nltb RR]. rewrite !Rltb_false.
+  destruct consts_R_agree as (-> & -> & _). lra.
 Qed.
 
 Lemma ppos_den_RR n cst : ppos_den RR n cst = IZR n + 1 - 2 * cst.
@@ -92,11 +93,11 @@ Proof. unfold ppos_at; cbn [ndiv nsub nofZ RR]. rewrite ppos_den_RR. reflexivity
 Lemma ppos_den_pos n cst : (1 <= n)%Z -> 0 <= cst <= 1/2 -> 0 < IZR n + 1 - 2 * cst.
 Proof. intros Hn Hc. apply IZR_le in Hn. lra. Qed.
 
-Theorem ppos_accepts n cst : 0 <= cst <= 1/2 ->
+Theorem ppos_accepts n cst : PPOS_CST_MIN_R <= cst <= PPOS_CST_MAX_R ->
   ppos RR n cst = Some (map (ppos_at RR n cst) (zseq 1 (Z.to_nat n))).
 Proof. intros H. unfold ppos. apply ppos_cst_ok_RR in H. rewrite H. reflexivity. Qed.
 
-Theorem ppos_rejects n cst : cst < 0 \/ 1/2 < cst -> ppos RR n cst = None.
+Theorem ppos_rejects n cst : cst < PPOS_CST_MIN_R \/ PPOS_CST_MAX_R < cst -> ppos RR n cst = None.
 Proof.
   intros H. unfold ppos. destruct (ppos_cst_ok RR cst) eqn:E; auto.
   apply ppos_cst_ok_RR in E. lra.
@@ -164,7 +165,7 @@ Qed.
 Example ppos_example : exists l, ppos RR 3 (3/10) = Some l /\ nth 1 l 0 = 1/2.
 Proof.
   destruct (ppos RR 3 (3/10)) eqn:E.
-  2:{ rewrite ppos_accepts in E by lra. discriminate. }
+  2:{ rewrite ppos_accepts in E by (unfold PPOS_CST_MIN_R, PPOS_CST_MAX_R; lra). discriminate. }
   exists l; split; auto. destruct (ppos_list _ _ _ E) as [_ H].
   rewrite (H 1%nat) by (change (Z.to_nat 3) with 3%nat; lia).
   rewrite ppos_at_RR. change (Z.of_nat 1 + 1)%Z with 2%Z. lra.
